@@ -496,3 +496,335 @@ Proof.
   - unfold F1. rewrite rebase_detach_root. apply rebase_attach_child.
   - intros g Hg Ha. unfold F1. rewrite rebase_detach_above by exact Ha. now apply rebase_attach_above.
 Qed.
+
+(* ------------------------------------------------------------------ building operands with the constructors *)
+Lemma set_reg_l_app_len (rs : list (option hnd)) x o : set_reg_l (length rs) o (rs ++ [x]) = rs ++ [o].
+Proof. induction rs as [|y r IH]; cbn; [reflexivity|]. now rewrite IH. Qed.
+
+Definition new_only (r : relrec) : bool :=
+  plain r && match rr_qual r with None => true | Some _ => false end.
+
+Lemma crel_tree_new r : new_only r = true -> relation_new (rr_name r) (rr_ver r) = crel_tree r.
+Proof.
+  unfold new_only. destruct r as [n [q|] v ar pr]; cbn [rr_qual rr_name rr_ver]; intros H.
+  - now rewrite andb_false_r in H.
+  - reflexivity.
+Qed.
+Lemma rel_spec_new r : new_only r = true -> rel_spec r = RSNew (rr_name r) (rr_ver r).
+Proof.
+  unfold new_only. destruct r as [n [q|] v ar pr]; cbn [rr_qual rr_name rr_ver]; intros H; [now rewrite andb_false_r in H|reflexivity].
+Qed.
+
+Lemma build_relation_greens_new e : forallb new_only e = true -> forall ts rs,
+  exists junk, runs (build_relation_greens fixed (map rel_spec e)) (mk_state ts rs)
+                    (map crel_tree e) (mk_state (ts ++ junk) rs).
+Proof.
+  induction e as [|r e IH]; intros H ts rs.
+  - exists []. rewrite app_nil_r. apply runs_ret.
+  - cbn [forallb] in H. apply andb_prop in H. destruct H as [Hr He].
+    destruct (IH He (ts ++ [mk_slot true 0 (crel_tree r)]) rs) as (junk & R).
+    exists (mk_slot true 0 (crel_tree r) :: junk).
+    cbn [map build_relation_greens]. rewrite (rel_spec_new _ Hr).
+    rbind.
+    { eapply runs_eq; [apply runs_scoped|reflexivity|].
+      - rbind; [apply runs_push_tmp|]. cbn [build_relation].
+        rbind; [rbind; [apply runs_alloc|]; apply runs_set_reg|].
+        rewrite set_reg_l_app_len. rewrite (crel_tree_new _ Hr).
+        unfold node_of_reg. rbind; [apply runs_get_reg; apply nth_error_app_at|].
+        eapply runs_node_of; [apply nth_error_app_at|reflexivity].
+      - now rewrite firstn_app_len. }
+    rbind; [exact R|]. rewrite <- app_assoc. rdone.
+Qed.
+
+(* ------------------------------------------------------------------ states of the register machine *)
+(* the root register holds the root of tree T (mutable); four more registers *)
+Definition holds (st : state) (T : rtree) : Prop :=
+  exists ts tid ri a b c d,
+    st = st5 ts (mk_hnd tid []) a b c d /\ nth_error ts tid = Some (mk_slot true ri T).
+
+Lemma holds_state_with_root st T : holds st T <-> state_with_root st T.
+Proof.
+  split.
+  - intros (ts & tid & ri & a & b & c & d & -> & H). exists tid, ri, a, b, c, d. now split.
+  - intros (tid & ri & a & b & c & d & E & H). destruct st as [ts rs]. cbn in *. subst rs.
+    now exists ts, tid, ri, a, b, c, d.
+Qed.
+Lemma holds_start T : holds (start_state T) T.
+Proof. now exists [mk_slot true 0 T], 0, 0, None, None, None, None. Qed.
+
+Lemma runs_try_build dst (m : M unit) st st' t st'' :
+  runs m st tt st' -> runs (reg_text dst) st' t st'' -> runs (try_build dst m) st (4%N, t) st''.
+Proof.
+  unfold runs, try_build. intros -> H. unfold mbind. now rewrite H.
+Qed.
+
+(* ONewEntry 1 (entry built by the constructors): register 3 then holds a new tree *)
+Lemma new_entry_runs e ts tid ri T a b c d : forallb new_only e = true ->
+  nth_error ts tid = Some (mk_slot true ri T) ->
+  exists ts' te txt,
+    runs (run_op fixed (ONewEntry 1 (entry_spec e))) (st5 ts (mk_hnd tid []) a b c d) (4%N, txt)
+         (st5 ts' (mk_hnd tid []) a b (Some (mk_hnd te [])) d) /\
+    nth_error ts' tid = Some (mk_slot true ri T) /\
+    nth_error ts' te = Some (mk_slot true 0 (centry_tree e)) /\ te <> tid.
+Proof.
+  intros He HT. unfold st5.
+  destruct (build_relation_greens_new e He ts [Some (mk_hnd tid []); a; b; c; d]) as (junk & R).
+  exists ((ts ++ junk) ++ [mk_slot true 0 (centry_tree e)]), (length (ts ++ junk)), (Some (text (centry_tree e))).
+  pose proof (nth_error_Some_lt _ _ _ HT) as Hlt.
+  repeat split.
+  - cbn [run_op]. eapply runs_try_build.
+    + unfold build_entry, entry_spec. rbind; [exact R|].
+      rbind; [apply runs_alloc|]. apply runs_set_reg.
+    + cbn [ereg Nat.mul Nat.add set_reg_l]. unfold reg_text, node_of_reg.
+      rbind; [rbind; [apply runs_get_reg; reflexivity|]; eapply runs_node_of; [apply nth_error_app_at|reflexivity]|].
+      rdone.
+  - apply nth_error_app_l. now apply nth_error_app_l.
+  - apply nth_error_app_at.
+  - rewrite app_length. lia.
+Qed.
+
+Lemma runs_with_reg_some r (m : M (N * option str)) ts rs h x st' :
+  nth_error rs r = Some (Some h) -> runs m (mk_state ts rs) x st' ->
+  runs (with_reg r m) (mk_state ts rs) x st'.
+Proof.
+  intros H R. unfold with_reg. rbind; [apply runs_has_reg|]. now rewrite H.
+Qed.
+
+(* OInsert i 1 / OPush 1 *)
+Lemma insert_runs idx ts tid ri T a b d te re G :
+  nth_error ts tid = Some (mk_slot true ri T) -> nth_error ts te = Some (mk_slot true re G) ->
+  runs (run_op fixed (OInsert idx 1)) (st5 ts (mk_hnd tid []) a b (Some (mk_hnd te [])) d) (0%N, None)
+       (st5 (ts ++ [mk_slot true 0 (relations_insert_green fixed T idx G)]) (mk_hnd (length ts) []) a b None d).
+Proof.
+  intros HT HG. cbn [run_op]. unfold st5. eapply runs_with_reg_some; [reflexivity|].
+  rbind; [apply (relations_insert_root ts tid ri T a b d te re G idx HT HG)|]. rdone.
+Qed.
+Lemma push_runs ts tid ri T a b d te re G :
+  nth_error ts tid = Some (mk_slot true ri T) -> nth_error ts te = Some (mk_slot true re G) ->
+  runs (run_op fixed (OPush 1)) (st5 ts (mk_hnd tid []) a b (Some (mk_hnd te [])) d) (0%N, None)
+       (st5 (ts ++ [mk_slot true 0 (relations_insert_green fixed T (count_if is_entry (children T)) G)])
+            (mk_hnd (length ts) []) a b None d).
+Proof.
+  intros HT HG. cbn [run_op]. unfold st5. eapply runs_with_reg_some; [reflexivity|].
+  rbind; [|rdone]. unfold relations_push.
+  rbind; [apply runs_get_reg; reflexivity|].
+  rbind; [eapply runs_children_of; [exact HT|reflexivity]|].
+  apply (relations_insert_root ts tid ri T a b d te re G _ HT HG).
+Qed.
+
+(* ------------------------------------------------------------------ Relations::replace *)
+(* the field's children around its i-th entry *)
+Lemma cfield_children_split fa e0 fb :
+  children (cfield_tree (fa ++ e0 :: fb)) =
+  preE (map centry_tree fa) ++ centry_tree e0 :: sepE (map centry_tree fb) /\
+  length (preE (map centry_tree fa)) = 3 * length fa.
+Proof.
+  unfold cfield_tree, relations_from_entries. cbn [children]. rewrite map_app. cbn [map].
+  rewrite join_entries_split. split; [reflexivity|]. now rewrite preE_length, map_length.
+Qed.
+
+Lemma replace_runs fa e0 fb e ts tid ri a b d te re :
+  nth_error ts tid = Some (mk_slot true ri (cfield_tree (fa ++ e0 :: fb))) ->
+  nth_error ts te = Some (mk_slot true re (centry_tree e)) -> tid <> te ->
+  exists ts' tid' ri' a' b' d',
+    runs (run_op fixed (OReplace (length fa) 1)) (st5 ts (mk_hnd tid []) a b (Some (mk_hnd te [])) d) (0%N, None)
+         (st5 ts' (mk_hnd tid' []) a' b' None d') /\
+    nth_error ts' tid' = Some (mk_slot true ri' (cfield_tree (l_replace (length fa) e (fa ++ e0 :: fb)))).
+Proof.
+  intros HT HE Hne. destruct (cfield_children_split fa e0 fb) as [Ecs Lpre].
+  set (T := cfield_tree (fa ++ e0 :: fb)) in *.
+  assert (HG : get_path T [] = Some (Node ROOT (preE (map centry_tree fa) ++ centry_tree e0 :: sepE (map centry_tree fb)))).
+  { cbn [get_path]. f_equal. unfold T at 1. unfold cfield_tree, relations_from_entries. f_equal.
+    exact Ecs. }
+  destruct (splice_replace_spec ts [Some (mk_hnd tid []); a; b; Some (mk_hnd te []); d] 0 3 tid ri T []
+              ROOT _ _ _ te re (centry_tree e) eq_refl eq_refl HT HG HE Hne)
+    as (ts' & F & R & L & T' & N & O & S1 & S2 & A).
+  exists ts', tid, ri, (option_map F a), (option_map F b), (option_map F d).
+  split.
+  - cbn [run_op]. unfold st5. eapply runs_with_reg_some; [reflexivity|].
+    rbind; [|rdone]. unfold relations_replace.
+    rbind; [apply runs_get_reg; reflexivity|].
+    rbind; [eapply runs_children_of; [exact HT|reflexivity]|].
+    cbn [s_tree].
+    assert (nth_index is_entry (length fa) (children T) = Some (3 * length fa)) as Hn.
+    { unfold T, cfield_tree, relations_from_entries. cbn [children].
+      rewrite nth_index_join_entries by apply Forall_entryish_map. rewrite map_length, app_length. cbn [length].
+      assert (length fa <? length fa + S (length fb) = true) as -> by (apply Nat.ltb_lt; lia). reflexivity. }
+    rewrite Hn. rewrite <- Lpre. cbn [ereg Nat.mul Nat.add].
+    rbind; [exact R|]. cbn [map option_map].
+    rewrite (A (mk_hnd tid [])) by (cbn [h_tid]; auto using above_root).
+    eapply runs_eq; [apply runs_set_reg|reflexivity|]. reflexivity.
+  - rewrite T'. f_equal. f_equal. cbn [upd_path].
+    rewrite replace_join_entries with (x := centry_tree e0). rewrite map_length.
+    unfold cfield_tree, relations_from_entries. f_equal. f_equal.
+    rewrite map_l_replace, map_app. reflexivity.
+Qed.
+
+(* ------------------------------------------------------------------ Entry::remove *)
+Lemma ws_prefix_len_le l : ws_prefix_len l <= length l.
+Proof. induction l as [|c r IH]; cbn; [lia|]. destruct (ws_elem c); lia. Qed.
+Lemma skipn_length_le {A} n (l : list A) : length (skipn n l) = length l - n.
+Proof. apply skipn_length. Qed.
+Lemma entry_remove_scan_next_le post k rc : entry_remove_scan_next post = Ok (k, rc) -> k <= length post.
+Proof.
+  unfold entry_remove_scan_next. pose proof (ws_prefix_len_le post) as H.
+  destruct (skipn (ws_prefix_len post) post) as [|c r] eqn:E.
+  - intros [= <- <-]. exact H.
+  - destruct (kind_is COMMA c); [|discriminate]. intros [= <- <-].
+    assert (length (skipn (ws_prefix_len post) post) = S (length r)) by now rewrite E.
+    rewrite skipn_length in H0. lia.
+Qed.
+Lemma entry_remove_scan_prev_le rc pre : entry_remove_scan_prev rc pre <= length pre.
+Proof.
+  unfold entry_remove_scan_prev. pose proof (ws_prefix_len_le (rev pre)) as H. rewrite rev_length in H.
+  destruct (skipn (ws_prefix_len (rev pre)) (rev pre)) as [|c r] eqn:E; [exact H|].
+  assert (length (skipn (ws_prefix_len (rev pre)) (rev pre)) = S (length r)) by now rewrite E.
+  rewrite skipn_length, rev_length in H0. destruct (negb rc && kind_is COMMA c); lia.
+Qed.
+
+Lemma entry_remove_spec ts rs r tid ri T p kd pre x post cs' :
+  nth_error rs r = Some (Some (mk_hnd tid (p ++ [length pre]))) ->
+  nth_error ts tid = Some (mk_slot true ri T) ->
+  get_path T p = Some (Node kd (pre ++ x :: post)) ->
+  entry_remove_cs fixed (pre ++ x :: post) (length pre) = Ok cs' ->
+  exists ts' F,
+    runs (entry_remove fixed r) (mk_state ts rs) tt (mk_state ts' (map (option_map F) rs)) /\
+    length ts <= length ts' /\
+    nth_error ts' tid = Some (mk_slot true ri (upd_path T p (fun _ => Node kd cs'))) /\
+    (forall j, j <> tid -> j < length ts -> nth_error ts' j = nth_error ts j) /\
+    (exists tn rn, F (mk_hnd tid (p ++ [length pre])) = mk_hnd tn [] /\
+                   nth_error ts' tn = Some (mk_slot true rn x)) /\
+    (forall g, above tid p g -> F g = g).
+Proof.
+  intros Hr HT HG Hcs. unfold entry_remove_cs in Hcs.
+  rewrite firstn_app_len, skipn_S_app_len in Hcs.
+  destruct (entry_remove_scan_next post) as [[k1 rc]| | |] eqn:Esc; try discriminate.
+  pose proof (entry_remove_scan_next_le _ _ _ Esc) as Hk1.
+  (* first loop *)
+  destruct (detach_next_repeat k1 ts rs r tid ri T p kd pre x post Hr HT HG Hk1)
+    as (ts1 & F1 & R1 & L1 & T1 & O1 & S1 & A1).
+  set (T1' := upd_path T p (fun _ => Node kd (pre ++ x :: skipn k1 post))) in *.
+  assert (HG1 : get_path T1' p = Some (Node kd (pre ++ x :: skipn k1 post)))
+    by (now apply get_path_upd_path with (n := Node kd (pre ++ x :: post))).
+  assert (Hr1 : nth_error (map (option_map F1) rs) r = Some (Some (mk_hnd tid (p ++ [length pre]))))
+    by (rewrite (nth_error_map_reg F1 _ _ _ Hr); now rewrite S1).
+  assert (Hhead : forall (m : M unit) st',
+            runs (m_repeat k1 (m_detach_next r) ;;
+                  (if negb (existsb (fun c => is_entry c || (fx_first_substvar fixed && node_is SUBSTVAR c)) pre)
+                   then m_repeat (ws_prefix_len (skipn k1 post)) (m_detach_next r)
+                   else m_repeat (entry_remove_scan_prev rc pre) (m_detach_prev r)) ;; m_detach r)
+                 (mk_state ts rs) tt st' ->
+            runs (entry_remove fixed r) (mk_state ts rs) tt st').
+  { intros _ st' H. unfold entry_remove. rbind; [apply runs_get_reg; exact Hr|]. rewrite parent_h_app.
+    rbind; [eapply runs_children_of; [exact HT|exact HG]|]. cbn [children].
+    rewrite firstn_app_len, skipn_S_app_len. rewrite Esc. exact H. }
+  destruct (negb (existsb (fun c => is_entry c || (fx_first_substvar fixed && node_is SUBSTVAR c)) pre)) eqn:Efirst.
+  - (* the first item: the white space that follows goes as well *)
+    inversion Hcs; subst cs'; clear Hcs.
+    set (k3 := ws_prefix_len (skipn k1 post)) in *.
+    assert (Hk3 : k3 <= length (skipn k1 post)) by apply ws_prefix_len_le.
+    destruct (detach_next_repeat k3 ts1 _ r tid ri T1' p kd pre x (skipn k1 post) Hr1 T1 HG1 Hk3)
+      as (ts2 & F2 & R2 & L2 & T2 & O2 & S2 & A2).
+    set (T2' := upd_path T1' p (fun _ => Node kd (pre ++ x :: skipn k3 (skipn k1 post)))) in *.
+    assert (HG2 : get_path T2' p = Some (Node kd (pre ++ x :: skipn k3 (skipn k1 post))))
+      by (now apply get_path_upd_path with (n := Node kd (pre ++ x :: skipn k1 post))).
+    assert (Hr2 : nth_error (map (option_map F2) (map (option_map F1) rs)) r = Some (Some (mk_hnd tid (p ++ [length pre]))))
+      by (rewrite (nth_error_map_reg F2 _ _ _ Hr1); now rewrite S2).
+    destruct (detach_reg_spec ts2 _ r tid ri T2' p kd pre x _ Hr2 T2 HG2)
+      as (ts3 & F3 & R3 & L3 & T3 & N3 & O3 & S3 & A3).
+    exists ts3, (fun g => F3 (F2 (F1 g))).
+    replace (map (option_map (fun g => F3 (F2 (F1 g)))) rs)
+      with (map (option_map F3) (map (option_map F2) (map (option_map F1) rs)))
+      by (now rewrite !map_option_map_comp).
+    repeat split.
+    + apply (Hhead (ret tt)). rbind; [exact R1|]. rbind; [exact R2|]. exact R3.
+    + lia.
+    + rewrite T3. f_equal. f_equal. unfold T2', T1'. rewrite (upd_path_const2 _ _ _ _ _ HG).
+      now rewrite (upd_path_const2 _ _ _ _ _ HG).
+    + intros j Hj Hl. rewrite O3 by lia. rewrite O2 by lia. now apply O1.
+    + exists (length ts2), (length pre). split; [now rewrite S1, S2, S3|exact N3].
+    + intros g Hg. rewrite A1, A2, A3; auto.
+  - (* not the first: white space in front, and the comma if none was removed after *)
+    inversion Hcs; subst cs'; clear Hcs.
+    set (k2 := entry_remove_scan_prev rc pre) in *.
+    assert (Hk2 : k2 <= length pre) by apply entry_remove_scan_prev_le.
+    set (pre0 := firstn (length pre - k2) pre) in *. set (gone := skipn (length pre - k2) pre).
+    assert (Epre : pre = pre0 ++ gone) by (symmetry; apply firstn_skipn).
+    assert (Lgone : length gone = k2) by (unfold gone; rewrite skipn_length; lia).
+    assert (Lpre0 : length pre = length pre0 + length gone) by (rewrite Epre at 1; apply app_length).
+    assert (Hr1' : nth_error (map (option_map F1) rs) r = Some (Some (mk_hnd tid (p ++ [length pre0 + length gone]))))
+      by (now rewrite <- Lpre0).
+    assert (HG1' : get_path T1' p = Some (Node kd (pre0 ++ gone ++ x :: skipn k1 post)))
+      by (rewrite app_assoc, <- Epre; exact HG1).
+    destruct (detach_prev_repeat gone ts1 _ r tid ri T1' p kd pre0 x (skipn k1 post) Hr1' T1 HG1')
+      as (ts2 & F2 & R2 & L2 & T2 & O2 & S2 & A2).
+    set (T2' := upd_path T1' p (fun _ => Node kd (pre0 ++ x :: skipn k1 post))) in *.
+    assert (HG2 : get_path T2' p = Some (Node kd (pre0 ++ x :: skipn k1 post)))
+      by (now apply get_path_upd_path with (n := Node kd (pre ++ x :: skipn k1 post))).
+    assert (Hr2 : nth_error (map (option_map F2) (map (option_map F1) rs)) r = Some (Some (mk_hnd tid (p ++ [length pre0]))))
+      by (rewrite (nth_error_map_reg F2 _ _ _ Hr1'); now rewrite S2).
+    destruct (detach_reg_spec ts2 _ r tid ri T2' p kd pre0 x _ Hr2 T2 HG2)
+      as (ts3 & F3 & R3 & L3 & T3 & N3 & O3 & S3 & A3).
+    exists ts3, (fun g => F3 (F2 (F1 g))).
+    replace (map (option_map (fun g => F3 (F2 (F1 g)))) rs)
+      with (map (option_map F3) (map (option_map F2) (map (option_map F1) rs)))
+      by (now rewrite !map_option_map_comp).
+    repeat split.
+    + apply (Hhead (ret tt)). rbind; [exact R1|]. fold k2. rewrite <- Lgone.
+      rbind; [exact R2|]. exact R3.
+    + lia.
+    + rewrite T3. f_equal. f_equal. unfold T2', T1'. rewrite (upd_path_const2 _ _ _ _ _ HG).
+      rewrite (upd_path_const2 _ _ _ _ _ HG). reflexivity.
+    + intros j Hj Hl. rewrite O3 by lia. rewrite O2 by lia. now apply O1.
+    + exists (length ts2), (length pre0). split; [|exact N3].
+      rewrite S1. rewrite Lpre0. now rewrite S2, S3.
+    + intros g Hg. rewrite A1, A2, A3; auto.
+Qed.
+
+(* ------------------------------------------------------------------ Relations::remove_entry *)
+Lemma nth_index_entry_cfield fa e0 fb :
+  nth_index is_entry (length fa) (children (cfield_tree (fa ++ e0 :: fb))) = Some (3 * length fa).
+Proof.
+  unfold cfield_tree, relations_from_entries. cbn [children].
+  rewrite nth_index_join_entries by apply Forall_entryish_map. rewrite map_length, app_length. cbn [length].
+  assert (length fa <? length fa + S (length fb) = true) as -> by (apply Nat.ltb_lt; lia). reflexivity.
+Qed.
+
+Lemma remove_entry_runs fa e0 fb ts tid ri a b c d :
+  nth_error ts tid = Some (mk_slot true ri (cfield_tree (fa ++ e0 :: fb))) ->
+  exists ts' a' b' c' d' txt,
+    runs (run_op fixed (ORemoveEntry (length fa))) (st5 ts (mk_hnd tid []) a b c d) (0%N, Some txt)
+         (st5 ts' (mk_hnd tid []) a' b' c' d') /\
+    nth_error ts' tid = Some (mk_slot true ri (cfield_tree (l_remove (length fa) (fa ++ e0 :: fb)))).
+Proof.
+  intros HT. destruct (cfield_children_split fa e0 fb) as [Ecs Lpre].
+  set (T := cfield_tree (fa ++ e0 :: fb)) in *.
+  set (pre := preE (map centry_tree fa)) in *. set (post := sepE (map centry_tree fb)) in *.
+  assert (HG : get_path T [] = Some (Node ROOT (pre ++ centry_tree e0 :: post))).
+  { cbn [get_path]. f_equal. unfold T at 1. unfold cfield_tree, relations_from_entries. f_equal. exact Ecs. }
+  assert (Hcs : entry_remove_cs fixed (pre ++ centry_tree e0 :: post) (length pre)
+                = Ok (join_entries 0 (l_remove (length fa) (map centry_tree (fa ++ e0 :: fb))))).
+  { rewrite <- Ecs, Lpre. unfold T, cfield_tree, relations_from_entries. cbn [children].
+    apply entry_remove_cs_canon; [apply Forall_entryish_map|]. rewrite map_length, app_length. cbn [length]. lia. }
+  set (rs6 := [Some (mk_hnd tid []); a; b; c; d; Some (mk_hnd tid ([] ++ [length pre]))]).
+  destruct (entry_remove_spec ts rs6 5 tid ri T [] ROOT pre (centry_tree e0) post _ eq_refl HT HG Hcs)
+    as (ts' & F & R & L & T' & O & (tn & rn & S1 & N1) & A).
+  exists ts', (option_map F a), (option_map F b), (option_map F c), (option_map F d), (text (centry_tree e0)).
+  split.
+  - cbn [run_op]. unfold st5. rbind; [|rdone]. unfold relations_remove_entry.
+    eapply runs_eq; [apply runs_scoped|reflexivity|].
+    + rbind.
+      { unfold nth_child_handle. rbind; [apply runs_get_reg; reflexivity|].
+        rbind; [eapply runs_children_of; [exact HT|reflexivity]|]. rdone. }
+      cbn [s_tree]. fold T. unfold T at 1. rewrite nth_index_entry_cfield. cbn [option_map].
+      unfold child_h. cbn [h_tid h_path]. rewrite <- Lpre.
+      rbind; [apply runs_push_tmp|]. cbn [length app].
+      rbind; [exact R|].
+      unfold node_of_reg. rbind.
+      { rbind; [apply runs_get_reg; unfold rs6; cbn [map nth_error option_map]; rewrite S1; reflexivity|].
+        eapply runs_node_of; [exact N1|reflexivity]. }
+      rdone.
+    + unfold rs6. cbn [map option_map length firstn].
+      rewrite (A (mk_hnd tid [])) by apply above_root. reflexivity.
+  - rewrite T'. f_equal. f_equal. cbn [upd_path]. rewrite <- map_l_remove. reflexivity.
+Qed.
